@@ -51,7 +51,16 @@ class Aw:
         return self.value
 
 
+class AwFuture(Aw):
+    """Like asyncio.Future: awaitable *and* iterable (``__iter__ = __await__``)"""
+
+    def __iter__(self):
+        return self.__await__()
+
+
 def make_awaitable(sim, log, name, n, value, coro, exc=None):
+    if coro == 2:
+        return AwFuture(sim, log, name, n, value, exc)
     aw = Aw(sim, log, name, n, value, exc)
     if not coro:
         return aw
@@ -65,7 +74,7 @@ def make_awaitable(sim, log, name, n, value, coro, exc=None):
 # --------------------------------------------------------------------------- any_iter
 def gen_any_iter(ch):
     sc = {"kind": "any_iter", "outer_aw": ch.draw(2), "container": ch.draw(3), "item_aw": ch.draw(2),
-          "n": ch.draw(7), "susp": [ch.draw(3) for _ in range(3)], "coro": ch.draw(2)}
+          "n": ch.draw(7), "susp": [ch.draw(3) for _ in range(3)], "coro": ch.draw(3)}
     sc["steps"] = ch.draw(sc["n"] + 2)
     return sc
 
@@ -116,7 +125,7 @@ async def run_any_iter(sc, sim, res, tag):
 
 # --------------------------------------------------------------------------- await_each
 def gen_await_each(ch):
-    sc = {"kind": "await_each", "n": ch.draw(7), "susp": [ch.draw(3) for _ in range(3)], "coro": ch.draw(2),
+    sc = {"kind": "await_each", "n": ch.draw(7), "susp": [ch.draw(3) for _ in range(3)], "coro": ch.draw(3),
           "container": ch.draw(2)}
     sc["steps"] = ch.draw(sc["n"] + 2)
     return sc
@@ -192,14 +201,21 @@ def check_await_each_order(log):
 # --------------------------------------------------------------------------- apply
 def gen_apply(ch):
     return {"kind": "apply", "npos": ch.draw(5), "nkw": ch.draw(4), "susp": [ch.draw(3) for _ in range(3)],
-            "coro": ch.draw(2), "fails": ch.chance(1, 6), "shared": ch.chance(1, 4)}
+            "coro": ch.draw(3), "fails": ch.chance(1, 6), "shared": ch.chance(1, 4),
+            # keyword names, some of them names the adapter may use for its own parameters
+            "names": [ch.draw(8) for _ in range(3)]}
 
 
 async def run_apply(sc, sim, res, tag):
     L = lib()
     log = res["log"]
     pos_vals = [(tag, "p", i) for i in range(sc["npos"])]
-    kw_vals = {"k%d" % i: (tag, "k", i) for i in range(sc["nkw"])}
+    pool = ("k0", "k1", "func", "self", "args", "kwargs", "function", "cls")
+    names = []
+    for i in range(sc["nkw"]):
+        nm = pool[sc["names"][i] % len(pool)]
+        names.append(nm if nm not in names else "k%d" % (i + 2))
+    kw_vals = {nm: (tag, "k", i) for i, nm in enumerate(names)}
     if not (sc["shared"] and sc["npos"] + sc["nkw"] >= 2):
         pos = [make_awaitable(sim, log, ("pos", i), sc["susp"][i % 3], pos_vals[i], sc["coro"]) for i in range(sc["npos"])]
         kws = {k: make_awaitable(sim, log, ("kw", k), sc["susp"][j % 3], v, sc["coro"])
@@ -229,16 +245,19 @@ async def run_apply(sc, sim, res, tag):
 
 
 # --------------------------------------------------------------------------- sync
+SYNC_FAULTS = (InjectedFault, TypeError, ValueError, KeyError, AttributeError)
+
+
 def gen_sync(ch):
     # flavour 6: a plain def that returns an awaitable on some calls and a plain value on others
     return {"kind": "sync", "flavour": ch.draw(7), "fails": ch.chance(1, 3), "susp": ch.draw(3),
-            "pattern": [ch.draw(2) for _ in range(ch.between(2, 4))]}
+            "pattern": [ch.draw(2) for _ in range(ch.between(2, 4))], "fault": ch.draw(len(SYNC_FAULTS))}
 
 
 async def run_sync(sc, sim, res, tag):
     L = lib()
     log = res["log"]
-    fault = InjectedFault("sync")
+    fault = SYNC_FAULTS[sc["fault"]]("sync")
     fl = sc["flavour"]
 
     def plain(x, y=1):
@@ -282,10 +301,8 @@ async def run_sync(sc, sim, res, tag):
             res["type_ok"] = hasattr(aw, "__await__")
             try:
                 got.append(("ok", await aw))
-            except InjectedFault as err:
+            except SYNC_FAULTS as err:
                 got.append(("raised", err is fault))
-            except TypeError as err:
-                got.append(("TypeError", str(err)[:40]))
         res["got"] = got
         res["expected"] = [("raised", True) if sc["fails"] else ("ok", ("r", (tag, k), 1)) for k in range(len(sc["pattern"]))]
         return
@@ -296,7 +313,7 @@ async def run_sync(sc, sim, res, tag):
     res["type_ok"] = hasattr(aw, "__await__")
     try:
         res["got"] = ("ok", await aw)
-    except InjectedFault as err:
+    except SYNC_FAULTS as err:
         res["got"] = ("raised", err is fault)
     yv = 2 if fl in (2, 5) else 1
     res["expected"] = ("raised", True) if sc["fails"] else ("ok", ("r", tag, yv))
